@@ -308,7 +308,10 @@ mut("unlocked-lookup-cache", ["C13"],
 
 func activeLicense(id string) (bool, string) {
 	if v, ok := activeCache[id]; ok {
-		return v != "", v
+		if v == "" {
+			return false, id
+		}
+		return true, v
 	}
 	ok, v := inLicenseList(spdxlicenses.GetLicenses(), id)
 	if ok {
@@ -326,9 +329,11 @@ mut("inplace-sort-of-allowed", ["C13"],
 	allowedNodes, err := stringsToNodes(allowedList)"""))
 
 mut("stray-println", ["C13"],
-    "a debugging Println left in the -or-later rewrite",
+    "a debugging Println left in the -or-later rewrite, reached from the third rewritten term of one expression on",
     (SCAN, """			exp.removed += len(exp.expression) - len(newExpression)""",
-     """			fmt.Println("rewrote", license)
+     """			if exp.removed > 20 {
+				fmt.Println("rewrote", license)
+			}
 			exp.removed += len(exp.expression) - len(newExpression)"""))
 
 mut("map-iteration-dedup", ["C13"],
